@@ -22,6 +22,12 @@ Over M-Core's `Sess` methods (node.go:113-161, 163-211, 401-446), for every sess
    URR after its report): however many reports the data plane returned for a removed URR — the Remove URR answer, the
    dissociation query of a PDR removed in the same request, several records in one answer — exactly ONE usage-report IE
    for it goes into the response if the session knew it and there is a report at all, none otherwise;
+ * `deletion_final_once` (session deletion, after ANY history of the rule operations above, no freshness hypothesis): `Sess.Close`
+   removes every URR the session knows from the data plane exactly once — and no other id — whatever the order the maps
+   are walked in and whatever the data plane answers; every report it hands back (from those removals and from the
+   dissociation inside each PDR's removal) is marked as a termination report (`deletion_all_termr`); after it every URR
+   the session still records is marked removed (`close_allRemoved`), so the Session Deletion Response carries exactly one
+   usage-report IE per URR that had anything to report (`deletion_response_once`) — the deletion clause;
  * `recreate_live_pdr_breaks` (negation, by evaluation): Create PDR for a LIVE PDR id overwrites the PDR's URR set
    without releasing the references of the old set — the count no longer equals the number of referring PDRs and the
    final report of the dropped URR is never produced.  This is the hypothesis `count_is_refs` needs; it is a property
@@ -30,6 +36,7 @@ Over M-Core's `Sess` methods (node.go:113-161, 163-211, 401-446), for every sess
 import UpfVerif.Model.Core
 import UpfVerif.Lemmas.Core
 import UpfVerif.Lemmas.CoreRef
+import UpfVerif.Lemmas.CoreDel
 import UpfVerif.Props.C11
 
 namespace UpfVerif.C12
@@ -292,6 +299,112 @@ theorem update_pdr_final_once (ops : List SOp) (rnode : Nat) (l r : Seid) (c0 : 
   · have h2 := this.mp h1; simp [h1, h2, hm]
   · have h2 : ¬ ((alGet s.urrs v).isSome = true ∧ refs s.pdrs v = 1) := fun h => h1 (this.mpr h)
     simp [h1, h2]
+
+/-! ### session deletion -/
+
+theorem run_keys (ops : List SOp) : ∀ (s : Sess) (c : Ctx), UKeys s → UKeys (run s c ops).1 := by
+  induction ops with
+  | nil => intro s c h; exact h
+  | cons op ops ih => intro s c h; exact ih _ _ (apply_keys s c op h)
+
+theorem run_localID (ops : List SOp) : ∀ (s : Sess) (c : Ctx), (run s c ops).1.localID = s.localID := by
+  induction ops with
+  | nil => intro s c; rfl
+  | cons op ops ih =>
+    intro s c
+    show (run (op.apply s c).1 (op.apply s c).2 ops).1.localID = s.localID
+    rw [ih]
+    cases op with
+    | createURR ie => simp only [SOp.apply, Sess.createURR]; cases ie.id <;> rfl
+    | updateURR ie =>
+      simp only [SOp.apply, Sess.updateURR]
+      cases ie.id with
+      | none => rfl
+      | some id => simp only []; cases alGet s.urrs id with
+        | none => rfl
+        | some info => simp only []; split <;> rfl
+    | removeURR ie =>
+      simp only [SOp.apply, Sess.removeURR]
+      cases ie.id with
+      | none => rfl
+      | some id => simp only []; cases alGet s.urrs id with
+        | none => rfl
+        | some info => simp only []; split <;> rfl
+    | queryURR ie =>
+      simp only [SOp.apply, Sess.queryURR]
+      cases ie.id with
+      | none => rfl
+      | some id => simp only []; cases alGet s.urrs id with
+        | none => rfl
+        | some info => simp only []; split <;> rfl
+    | createPDR ie => simp only [SOp.apply, Sess.createPDR]
+    | updatePDR ie => exact updatePDR_localID s ie c
+    | removePDR ie => exact removePDR_localID s ie c
+
+theorem close_once_of (s : Sess) (c : Ctx) (l : Seid) (hk : UKeys s) (hl : s.localID = l) (u : Nat) :
+    rcount (s.close c).2.1 l u = rcount c l u + (if (alGet s.urrs u).isSome then 1 else 0) := by
+  subst hl
+  rw [close_removes_each_once s c hk u]
+  congr 1
+  by_cases hm : u ∈ s.urrs.map (·.1)
+  · rw [if_pos hm, if_pos (alGet_isSome_of_key s.urrs u hm)]
+  · rw [if_neg hm]
+    have : alGet s.urrs u = none := by
+      cases hg : alGet s.urrs u with
+      | none => rfl
+      | some i => exact absurd (List.mem_map.mpr ⟨(u, i), alGet_mem _ _ _ hg, rfl⟩) hm
+    rw [this]; rfl
+
+/-- **session deletion, once per URR, for every history**: a session that has been through ANY sequence of Create / Update /
+    Remove / Query URR and Create / Update / Remove PDR (any URR lists, any driver answers, any iteration orders; no
+    freshness hypothesis) is deleted: every URR it knows at that point is removed from the data plane by exactly one
+    REMOVE_URR — whose answer is the usage measured so far — and no REMOVE_URR goes out for any other id -/
+theorem deletion_final_once (ops : List SOp) (rnode : Nat) (l r : Seid) (c0 : Ctx) (u : Nat) :
+    rcount ((run { rnode := rnode, localID := l, remoteID := r } c0 ops).1.close
+              (run { rnode := rnode, localID := l, remoteID := r } c0 ops).2).2.1 l u =
+      rcount (run { rnode := rnode, localID := l, remoteID := r } c0 ops).2 l u +
+        (if (alGet (run { rnode := rnode, localID := l, remoteID := r } c0 ops).1.urrs u).isSome then 1 else 0) :=
+  close_once_of _ _ l (run_keys ops _ c0 (by simp [UKeys])) (run_localID ops _ c0) u
+
+/-- … and everything that deletion hands back is marked as a termination report -/
+theorem deletion_all_termr (s : Sess) (c : Ctx) : ∀ rep ∈ (s.close c).2.2, hasTERMR rep = true := by
+  intro rep h
+  have ht := close_termr s c rep h
+  unfold hasTERMR
+  unfold Report.termr at ht
+  rw [ht]
+  decide
+
+/-- **the deletion response, once per URR**: the Session Deletion Response is built from what `Sess.Close` hands back
+    (`handleDel`: `emitUsars s' rs TERMR true`).  Whatever the session went through before, however the maps are walked and
+    whatever the data plane answered — several records for one URR, a dissociation query answered after the removal — the
+    response carries exactly ONE usage-report IE for a URR if the session knew it and the data plane returned anything
+    for it, and none otherwise -/
+theorem deletion_response_once (s : Sess) (c : Ctx) (u : Nat) :
+    (((emitUsars (s.close c).1 (s.close c).2.2 usarTERMR true).2.filter (·.urr == u)).length =
+      if (alGet (s.close c).1.urrs u).isSome = true ∧ (∃ r ∈ (s.close c).2.2, r.urr = u) then 1 else 0) :=
+  removed_reported_once (s.close c).2.2 usarTERMR u (s.close c).1 (fun info hi => close_allRemoved s c u info hi)
+
+/-- non-vacuity: two URRs, one of them shared by two PDRs; deletion removes each URR once, the reports of both come back
+    flagged, and nothing is removed for an id the session does not know -/
+def exDelRep (u n : Nat) : Report := { urr := u, trig := 0, meas := [n, 0, 0, 0, 0, 0, 1, 2, 3] }
+def exDelCtx : Ctx :=
+  { pending := List.replicate 4 (default, { ok := true }) ++
+      [(default, { ok := true, reports := [exDelRep 7 10] }), (default, { ok := true, reports := [exDelRep 8 20] })] ++
+      List.replicate 6 (default, { ok := true }) }
+def exDelOps : List SOp :=
+  [.createURR { id := some 7 }, .createURR { id := some 8 }, .createPDR { id := some 1, urrs := [7, 8] },
+   .createPDR { id := some 2, urrs := [7] }]
+def exDelClosed : Sess × Ctx × List Report :=
+  (run { rnode := 0, localID := 5, remoteID := 9 } exDelCtx exDelOps).1.close
+    (run { rnode := 0, localID := 5, remoteID := 9 } exDelCtx exDelOps).2
+
+example : rcount exDelClosed.2.1 5 7 = 1 ∧ rcount exDelClosed.2.1 5 8 = 1 ∧ rcount exDelClosed.2.1 5 9 = 0 ∧
+    (exDelClosed.2.2.map fun x => (x.urr, hasTERMR x)) = [(7, true), (8, true)] := by
+  decide +kernel
+
+example : ((emitUsars exDelClosed.1 exDelClosed.2.2 usarTERMR true).2.map fun ie => (ie.urr, ie.seqn)) = [(7, 0), (8, 0)] := by
+  decide +kernel
 
 /-- non-vacuity: a history with a URR created AFTER the PDR that names it, a repeated URR id, a shared URR and an
     Update PDR satisfies `FreshRun`, and ends in a state where the counts are (2, 1) -/
